@@ -63,6 +63,51 @@ Theorem C15_release_frees_all :
 Proof. exact release_frees_all. Qed.
 Print Assumptions C15_release_frees_all.
 
+(* the block the first-free algorithm of the code picks is admissible, and granting it through the admissibility
+   check gives the same state: the theorems above cover the current policy *)
+Theorem C15_first_free_admissible :
+  forall r p0 ops k b p', wf_range r -> configure repaired r = Some p0 ->
+  alloc_literal (effective r) (run repaired (effective r) p0 ops) k = inr (b, p') ->
+  alloc_obs (effective r) (run repaired (effective r) p0 ops) k b = Some p'.
+Proof. exact first_free_admissible. Qed.
+Print Assumptions C15_first_free_admissible.
+
+(* ---- component level: the reverse index as maintained by component.go's call order ---- *)
+
+(* Lookup of any (address, port) names exactly the subscriber holding the covering block, or nothing when no held
+   block covers the port.  [ops] ranges over all histories of activation (dataplane success or failure), activation
+   with an HA-synced record, release, and the two restore branches. *)
+Theorem C15_reverse_lookup_exact :
+  forall r p0 ops, wf_range r -> configure repaired r = Some p0 ->
+  forall ip port,
+  match rev_lookup (cp_rev (crun repaired (effective r) (comp_init p0) ops)) ip port with
+  | Some m => In (m_blk m) (blocks_of (cp_pool (crun repaired (effective r) (comp_init p0) ops)) (m_sub m)) /\
+              covers (m_blk m) ip port = true /\
+              forall k b, In b (blocks_of (cp_pool (crun repaired (effective r) (comp_init p0) ops)) k) ->
+                          covers b ip port = true -> k = m_sub m /\ b = m_blk m
+  | None => forall k b, In b (blocks_of (cp_pool (crun repaired (effective r) (comp_init p0) ops)) k) ->
+                        covers b ip port = false
+  end.
+Proof. exact reverse_lookup_exact. Qed.
+Print Assumptions C15_reverse_lookup_exact.
+
+(* the pool inside the component: disjoint, in range / aligned / not excluded, limit, pairing *)
+Theorem C15_component_pool_properties :
+  forall r p0 ops, wf_range r -> configure repaired r = Some p0 ->
+  let c := effective r in
+  let s := crun repaired c (comp_init p0) ops in
+  (forall k1 k2 b1 b2, k1 <> k2 -> In b1 (blocks_of (cp_pool s) k1) -> In b2 (blocks_of (cp_pool s) k2) ->
+     b_ip b1 = b_ip b2 -> b_end b1 < b_start b2 \/ b_end b2 < b_start b1) /\
+  (forall k b, In b (blocks_of (cp_pool s) k) ->
+     In (b_ip b) (flat_map expand (r_outside r)) /\ ~ In (b_ip b) (r_excluded r) /\
+     c_pstart c <= b_start b /\ (b_start b - c_pstart c) mod c_bs c = 0 /\
+     b_end b = b_start b + c_bs c - 1 /\ b_end b <= c_pend c) /\
+  (forall k, N.of_nat (length (blocks_of (cp_pool s) k)) <= c_max c) /\
+  (c_paired c = true -> forall k b1 b2, In b1 (blocks_of (cp_pool s) k) -> In b2 (blocks_of (cp_pool s) k) ->
+     b_ip b1 = b_ip b2).
+Proof. exact comp_pool_props. Qed.
+Print Assumptions C15_component_pool_properties.
+
 (* ---- what the unchanged code violates (variant [defective] = the code as it is today) ---- *)
 
 (* RestoreMapping accepts an unaligned block overlapping subscriber 1's block; releasing the restored subscriber
@@ -76,6 +121,30 @@ Proof.
   vm_compute. split; left; reflexivity.
 Qed.
 Print Assumptions C15_disjoint_refuted.
+
+(* Degraded restore indexes subscriber 2's block; the session's activation finds the block through GetOrAllocate and
+   commitMapping indexes it a second time; release removes one entry; subscriber 3 is then given the block, but the
+   reverse lookup of port 1040 still names subscriber 2. *)
+Theorem C15_reverse_lookup_refuted :
+  exists ops m, let s := crun defective (effective ex_raw1) (comp_init (pool_of defective ex_raw1)) ops in
+    rev_lookup (cp_rev s) 1681915905 1040 = Some m /\ m_sub m = 2 /\
+    blocks_of (cp_pool s) 2 = [] /\ In (m_blk m) (blocks_of (cp_pool s) 3).
+Proof.
+  exists [CActivate 1 1 true None; CRestoreDegraded 2 {| b_ip := 1681915905; b_start := 1040; b_end := 1055 |};
+          CActivate 6 2 true None; CRelease 6 2; CActivate 7 3 true None].
+  eexists. vm_compute. split; [reflexivity|]. split; [reflexivity|]. split; [reflexivity|]. left; reflexivity.
+Qed.
+Print Assumptions C15_reverse_lookup_refuted.
+
+(* An outside address listed twice gets two allocators: subscriber 3 is given the block subscriber 1 holds. *)
+Theorem C15_duplicate_address_refuted :
+  exists ops b, let p := run defective (effective ex_raw_dup) (pool_of defective ex_raw_dup) ops in
+    In b (blocks_of p 1) /\ In b (blocks_of p 3).
+Proof.
+  exists [OAlloc 1 None; OAlloc 2 None; OAlloc 3 None]. exists {| b_ip := 1681915905; b_start := 1024; b_end := 1087 |}.
+  vm_compute. split; left; reflexivity.
+Qed.
+Print Assumptions C15_duplicate_address_refuted.
 
 (* non-vacuity of the hypotheses: the same geometry, a history with allocations by two subscribers, a release, a
    valid restore and a refused (unaligned) restore, run on the repaired model *)
@@ -91,3 +160,18 @@ Example C15_nonvacuous :
   blocks_of p 3 = [ {| b_ip := ex_base + 1; b_start := 1056; b_end := 1071 |} ].
 Proof. vm_compute. repeat split; try discriminate; intros H; discriminate. Qed.
 Print Assumptions C15_nonvacuous.
+
+(* component level non-vacuity: the history of the refuted witness on the repaired model, plus a refused restore; the
+   lookups name the right owners and a released port answers nothing *)
+Example C15_component_nonvacuous :
+  wf_range ex_raw1 /\ configure repaired ex_raw1 <> None /\
+  let s := crun repaired (effective ex_raw1) (comp_init (pool_of repaired ex_raw1))
+             [CActivate 1 1 true None; CRestoreDegraded 2 {| b_ip := 1681915905; b_start := 1040; b_end := 1055 |};
+              CActivate 6 2 true None; CRestorePresent 8 4 {| b_ip := 1681915905; b_start := 1041; b_end := 1056 |};
+              CRelease 6 2; CActivate 7 3 true None; CActivate 9 5 false None] in
+  option_map m_sub (rev_lookup (cp_rev s) 1681915905 1030) = Some 1 /\
+  option_map m_sub (rev_lookup (cp_rev s) 1681915905 1040) = Some 3 /\
+  rev_lookup (cp_rev s) 1681915905 1056 = None /\
+  blocks_of (cp_pool s) 4 = [] /\ blocks_of (cp_pool s) 5 = [] /\ cp_sess s = [1; 7].
+Proof. vm_compute. repeat split; try discriminate; intros H; discriminate. Qed.
+Print Assumptions C15_component_nonvacuous.
